@@ -8,7 +8,8 @@ use std::fmt::Write;
 pub struct Num {
     pub v: i128,
     /// spelling: 0 decimal, 1 hex upper, 2 hex lower with `_` every 4 digits,
-    /// 3 decimal with `_` every 3 digits, 4 octal, 5 binary
+    /// 3 decimal with `_` every 3 digits, 4 octal, 5 binary; plus 6 * k for a type suffix
+    /// (k = 1 u64, 2 usize, 3 i64, 4 u32, 5.. isize)
     pub sp: u8,
 }
 impl Num {
@@ -32,10 +33,19 @@ impl Num {
             4 => format!("0o{a:o}"),
             _ => format!("0b{a:b}"),
         };
+        // sp / 6 selects a type suffix (literals carry no type in the language: it is ignored)
+        let suffix = match self.sp / 6 {
+            0 => "",
+            1 => "u64",
+            2 => "usize",
+            3 => "i64",
+            4 => "u32",
+            _ => "isize",
+        };
         if neg {
-            format!("-{body}")
+            format!("-{body}{suffix}")
         } else {
-            body
+            format!("{body}{suffix}")
         }
     }
 }
